@@ -62,6 +62,17 @@ func (j *jsonWriter) endElem() {
 	}
 }
 
+// appendJSONString appends s to b as a JSON string literal. strconv.AppendQuote must not be
+// used for that: it produces Go syntax (\x01, \a, \v, \U0001f600) which is not valid JSON.
+func appendJSONString(b []byte, s string) []byte {
+	quoted, err := json.Marshal(s)
+	if err != nil {
+		// Cannot happen, marshaling a string never fails
+		panic(err)
+	}
+	return append(b, quoted...)
+}
+
 func (j *jsonWriter) encodeAppend(ty Type, tag int, f func([]byte) []byte) {
 	j.startElem(ty, tag)
 	j.buf.Write(f(j.buf.AvailableBuffer()))
@@ -169,7 +180,7 @@ func (j *jsonWriter) Enum(enumtag, tag int, value uint32) {
 		if strVal == "" {
 			return fmt.Appendf(b, "\"0x%08X\"", value)
 		}
-		return strconv.AppendQuote(b, strVal)
+		return appendJSONString(b, strVal)
 	})
 }
 
@@ -209,7 +220,7 @@ func (j *jsonWriter) Struct(tag int, f func(writer)) {
 // TextString implements writer.
 func (j *jsonWriter) TextString(tag int, str string) {
 	j.encodeAppend(TypeTextString, tag, func(b []byte) []byte {
-		return strconv.AppendQuote(b, str)
+		return appendJSONString(b, str)
 	})
 }
 
